@@ -47,6 +47,8 @@ var boundedRegistry = map[string][]boundedSpec{
 		What: "stands in for the container grammar and byte-for-byte output of Compact/Indent, which no function contract states (indentValue family has a trusted contract)"}},
 	"C03": {{Name: "well-formedness of encoder output over struct shapes", Pkg: ".", Template: "json_encode_shapes.go",
 		What: "stands in for the trailing-comma / closer discipline of the container opcodes, which no contract states (Run is proved only with respect to call-site preconditions)"}},
+	"C09": {{Name: "stream decoding against one-piece and buffer decoding", Pkg: ".", Template: "json_stream_chunks.go",
+		What: "stands in for the refill-and-retry branches of the stream scanners that are not under contract (numbers, strings, containers, keys, skip functions) and for stream = buffer agreement"}},
 	"C15": {{Name: "struct key selection against encoding/json", Pkg: ".", Template: "json_keymatch.go",
 		What: "stands in for what the scanner contracts assume or leave outside: the bitmap built by tryOptimize (wfRows/wfLastRow preconditions), the fieldMap fallback, and the stream-mode twins"}},
 	"C16": {{Name: "AppendInt/AppendUint exact output", Pkg: "internal/encoder", Template: "encoder_appendint.go",
